@@ -206,7 +206,12 @@ impl Iterator for OsuGradualDifficulty {
 
 impl ExactSizeIterator for OsuGradualDifficulty {
     fn len(&self) -> usize {
-        self.diff_objects.len() + 1 - self.idx
+        if self.osu_objects.is_empty() {
+            // No hit objects means no attributes
+            0
+        } else {
+            self.diff_objects.len() + 1 - self.idx
+        }
     }
 }
 
